@@ -20,7 +20,8 @@
    operation = [code, name, val], code 0 increment, 1 set_counter, 2 register counter,
    3 register other; name -1 = "execution_time_ms". *)
 From Coq Require Import List ZArith NArith Bool String.
-From IB Require Import Util.J Metrics.Metrics.
+From Coq Require Uint63.
+From IB Require Import Util.J Metrics.Metrics Metrics.Export.
 Import ListNotations.
 Open Scope Z_scope.
 
@@ -622,6 +623,234 @@ Definition judge_attach (steps : list J) (slept : Z) (obs finals : list J) : opt
   | None => None
   end.
 
+(* ---------- export sequences on shared paths (kind `saves`) ---------- *)
+(* the harness's side of Export.env: how c16.rs spells names (name_str) and what its metrics
+   return from value() / description() (make_metric; tags as produced by dec_metric) *)
+Definition h_name (k : name) : text :=
+  if 0 <=? k then txt "c" ++ dec (Z.to_N k)
+  else if k =? -1 then TIME_KEY
+  else if k =? -2 then []
+  else if k =? -3 then [32]
+  else if k =? -4 then txt "value"
+  else if k =? -5 then [109; 195; 169; 116; 114; 105; 113; 117; 101; 32; 226; 156; 147]
+  else if k =? -6 then [97; 46; 98; 47; 99; 34; 100; 92; 101; 10; 102]
+  else if k =? -7 then txt "description"
+  else txt "c-99".
+(* z / 4 as ryu prints it (multiples of 0.25 below 10^16) *)
+Definition quarter (z : Z) : jv :=
+  JRaw (dec (Z.to_N (z / 4)) ++
+        (if z mod 4 =? 0 then txt ".0" else if z mod 4 =? 1 then txt ".25"
+         else if z mod 4 =? 2 then txt ".5" else txt ".75")).
+Definition h_val (tag : Z) : jv :=
+  let k := tag / 1000 in
+  let v := tag mod 1000 in
+  if k =? 0 then
+    (* kind 1: GaugeMetric::new(v as f64) for even v, TagMetric for odd v *)
+    if Z.even v then quarter (4 * v) else JArr [JStr (txt "tag"); JNat (Z.to_N v)]
+  else if k =? 2 then
+    (* gauge: NaN, +inf, -inf (json! turns a non-finite float into null), 0.0, -0.0, f64::MAX, 1e-310 *)
+    let i := v mod 7 in
+    if i <? 3 then JNull
+    else if i =? 3 then JRaw (txt "0.0")
+    else if i =? 4 then JRaw (txt "-0.0")
+    else if i =? 5 then JRaw (txt "1.7976931348623157e308")
+    else JRaw (txt "1e-310")
+  else if k =? 3 then
+    (* HistogramMetric of the samples 0, 1.5, .., 1.5 (n - 1): stats() as a Map *)
+    let n := v mod 100 in
+    if 100 <=? v then JStr (txt "unsupported")
+    else
+      JObj [(txt "count", JNat (Z.to_N n));
+            (txt "max", quarter (if n =? 0 then 0 else 6 * (n - 1)));
+            (txt "mean", quarter (if n =? 0 then 0 else 3 * (n - 1)));
+            (txt "min", quarter 0);
+            (txt "p50", quarter (6 * (n / 2)));
+            (txt "p95", quarter (6 * (n * 95 / 100)));
+            (txt "p99", quarter (6 * (n * 99 / 100)));
+            (txt "sum", quarter (3 * n * (n - 1)))]
+  else if k =? 4 then
+    (* OddMetric *)
+    if v =? 0 then JNull
+    else if v =? 1 then JStr []
+    else if v =? 2 then JObj []
+    else if v =? 3 then JArr []
+    else if v =? 4 then JBool false
+    else JObj [(txt "nested", JArr [JNull; JObj [(txt "x", JArr [])]]); (txt "value", JNull)]
+  else JStr (txt "unsupported").
+Definition h_desc (tag : Z) : option text :=
+  let k := tag / 1000 in
+  let v := tag mod 1000 in
+  if Z.even v then
+    if k =? 2 then Some (txt "a ratio")
+    else if k =? 3 then Some (txt "latencies")
+    else if k =? 4 then Some []
+    else None
+  else None.
+Definition HENV : env := Env h_name h_val h_desc.
+
+(* [length, hash] as c16.rs `digest` computes it: h <- h * 257 + byte + 1 in wrapping 63-bit
+   arithmetic, the low 61 bits at the end *)
+Definition dig_b : PrimInt63.int := Eval vm_compute in Uint63.of_Z 257.
+Definition dig_mask : PrimInt63.int := Eval vm_compute in Uint63.of_Z (2 ^ 61 - 1).
+Definition dig0 : PrimInt63.int := Eval vm_compute in Uint63.of_Z 7.
+Fixpoint digest_go (t : text) (n : Z) (h : PrimInt63.int) : Z * Z :=
+  match t with
+  | [] => (n, Uint63.to_Z (PrimInt63.land h dig_mask))
+  | b :: r => digest_go r (n + 1) (PrimInt63.add (PrimInt63.mul h dig_b) (Uint63.of_Z (b + 1)))
+  end.
+Definition digest (t : text) : Z * Z := digest_go t 0 dig0.
+Definition dig_eqb (d : Z * Z) (j : J) : bool :=
+  match j with JL [JI l; JI h] => (fst d =? l) && (snd d =? h) | _ => false end.
+Definition odig_eqb (o : option text) (j : J) : bool :=
+  match o, j with
+  | None, JN => true
+  | Some t, JL _ => dig_eqb (digest t) j
+  | _, _ => false
+  end.
+Definition full_eqb (t : text) (j : J) : bool :=      (* the text itself, when the harness sent it *)
+  match j with JN => true | JY b => text_eqb t b | JS s => text_eqb t (string_bytes s) | _ => false end.
+
+(* one input step as model steps; the clock oracle: record_start reads `now` (every stamp so far
+   is <= now), record_end after a start reads start + the elapsed time observed after the step *)
+Definition dec_xsteps (now : Z) (s : mstate) (st el : J) : option (list xstep) :=
+  match st with
+  | JL [JI 4; ms] => match dec_metrics ms with Some l => Some [XCall (RegAll l)] | None => None end
+  | JL [JI 5] => Some [XCall (RecStart now)]
+  | JL [JI 6] =>
+      Some [XCall (RecEnd (match ms_start s, el with Some a, JI d => a + d | _, _ => now end))]
+  | JL [JI 7; JI p] => Some [XSave p]
+  | JL [JI 8; JI p] => Some [XRemove p]
+  | JL [JI 9; JI p; JI len; JI b] =>
+      Some [XForeign p (map (fun i => (b + Z.of_nat i) mod 251) (seq 0 (Z.to_nat len)))]
+  | JL [JI 10; JI k] => if k <? 0 then None else Some [XUse (Z.to_nat k)]
+  | JL [JI 11; JI ms] => Some [XSleep ms]
+  | JL [JI 12; JI base; JI count; JI v; JI mode] =>
+      let idx := map (fun i => base + Z.of_nat i) (seq 0 (Z.to_nat count)) in
+      if v <? 0 then None
+      else if mode =? 0 then Some (map (fun n => XCall (SetC n (Z.to_N v))) idx)
+      else if mode =? 1 then Some (map (fun n => XCall (Incr n (Z.to_N v))) idx)
+      else Some [XCall (RegAll (map (fun n => (n, Counter (Z.to_N v))) idx))]
+  | JL [JI _; JI _; JI _] => match dec_op st with Some c => Some [XCall c] | None => None end
+  | _ => None
+  end.
+Definition last_outcome (E : env) (xs : list xstep) (w : world) : world * outcome unit :=
+  fold_left (fun wr x => xstep_run E x (fst wr)) xs (w, Ok tt).
+Definition ozmax (a : Z) (o : option Z) : Z := match o with Some b => Z.max a b | None => a end.
+
+(* which path (if any) an input step writes, removes or replaces *)
+Definition step_path (st : J) : option Z :=
+  match st with
+  | JL [JI 7; JI p] | JL [JI 8; JI p] | JL [JI 9; JI p; _; _] => Some p
+  | _ => None
+  end.
+Fixpoint files_same_except (p : option Z) (i : Z) (a b : list J) : bool :=
+  match a, b with
+  | [], [] => true
+  | x :: a', y :: b' =>
+      ((match p with Some q => q =? i | None => false end) || jeqb x y) &&
+      files_same_except p (i + 1) a' b'
+  | _, _ => false
+  end.
+Fixpoint files_agree (f : fs) (i : Z) (obs : list J) : bool :=
+  match obs with
+  | [] => true
+  | o :: r => odig_eqb (fs_read i f) o && files_agree f (i + 1) r
+  end.
+
+(* names the script has written under so far, per collector (reference side) *)
+Definition xstep_names (x : xstep) : list name :=
+  match x with XCall c => call_names c | _ => [] end.
+
+Fixpoint judge_saves (steps obs : list J) (w : world) (now : Z) (cur_k : Z) (written : list (Z * name))
+         (prev_files : list J) : option (bool * bool * world) :=
+  match steps, obs with
+  | [], [] => Some (true, true, w)
+  | st :: steps', JL [JI res; el; lohi; jj; js; jp; JL files; info] :: obs' =>
+      match dec_xsteps now (cur w) st el with
+      | None => None
+      | Some xs =>
+          let '(w', out) := last_outcome HENV xs w in
+          let s' := cur w' in
+          let now' := ozmax (ozmax now (ms_start s')) (ms_end s') in
+          let cur_k' := match st with JL [JI 10; JI k] => k | _ => cur_k end in
+          let written' := map (fun n => (cur_k, n)) (flat_map xstep_names xs) ++ written in
+          let in_window :=
+            match lohi, el with
+            | JN, _ => true
+            | JL [JI lo; JI hi], JI d => (lo <=? d) && (d <=? hi)
+            | _, _ => false
+            end in
+          let agree :=
+            (res =? match out with Ok _ => 0 | Err _ => 1 | Panic => 2 end) &&
+            match elapsed s', el with
+            | None, JN => true
+            | Some d, JI d' => d =? d'
+            | _, _ => false
+            end && in_window &&
+            dig_eqb (digest (export_text HENV s')) jj &&
+            dig_eqb (digest (compact (snapshot_json HENV s'))) js &&
+            (if dig_eqb (digest (print_text HENV s')) jp then true
+             else dig_eqb (digest (print_text_alt HENV s')) jp) &&
+            files_agree (w_fs w') 0 files in
+          let mine := flat_map (fun p => if fst p =? cur_k' then [snd p] else []) written' in
+          let prop :=
+            in_window &&
+            match el with JN => true | JI d => 0 <=? d | _ => false end &&
+            files_same_except (step_path st) 0 files prev_files &&
+            match st with
+            | JL [JI 7; JI p] =>
+                if res =? 0 then
+                  (* the file just written IS the export: parses, equals to_json(), is its pretty
+                     text (also by digest), and names every metric written so far *)
+                  match info with
+                  | JL [JB parses; JB same; JB texteq; jkeys] =>
+                      match jints jkeys with
+                      | Some keys =>
+                          parses && same && texteq && (0 <=? p) &&
+                          jeqb (nth (Z.to_nat p) files JN) jj &&
+                          forallb (fun n => zmem n keys) mine &&
+                          match el with JI _ => zmem exec_time_name keys | _ => true end
+                      | None => false
+                      end
+                  | _ => false
+                  end
+                else (p <? 0) && files_same_except None 0 files prev_files
+            | _ => res =? 0
+            end in
+          match judge_saves steps' obs' w' now' cur_k' written' files with
+          | Some (a, p, wf) => Some (agree && a, prop && p, wf)
+          | None => None
+          end
+      end
+  | _, _ => None
+  end.
+
+Definition judge_saves_case (ncoll npaths : Z) (steps obs : list J) (finals : J) : option (bool * bool) :=
+  if (ncoll <? 1) || (npaths <? 0) then None else
+  match judge_saves steps obs (fresh_world (Z.to_nat ncoll)) 0 0 [] (repeat JN (Z.to_nat npaths)) with
+  | Some (a, p, wf) =>
+      match finals with
+      | JL [fj; fs; fp; JL ffiles] =>
+          let s := cur wf in
+          let fin :=
+            full_eqb (export_text HENV s) fj && full_eqb (compact (snapshot_json HENV s)) fs &&
+            (if full_eqb (print_text HENV s) fp then true else full_eqb (print_text_alt HENV s) fp) &&
+            (fix go (i : Z) (l : list J) : bool :=
+               match l with
+               | [] => true
+               | j :: r =>
+                   match fs_read i (w_fs wf), j with
+                   | None, JN => true
+                   | Some t, _ => full_eqb t j
+                   | _, _ => false
+                   end && go (i + 1) r
+               end) 0 ffiles in
+          Some (a && fin, p)
+      | _ => None
+      end
+  | None => None
+  end.
+
 (* ---------- entry point ---------- *)
 Definition check_C16 (kind : string) (input output : J) : verdict :=
   if String.eqb kind "sched" then
@@ -779,6 +1008,14 @@ Definition check_C16 (kind : string) (input output : J) : verdict :=
         let sleeps := match jints jdata with Some l => map clamp_ms l | None => [] end in
         let slept := if mode =? 0 then zsum sleeps else zmax sleeps in
         finish (judge_attach steps slept obs finals)
+    | _, _ => malformed
+    end
+  else if String.eqb kind "saves" then
+    (* in = [ncoll, npaths, steps]; out = [ok, per step [result, elapsed ns, [lo,hi], digests of
+       to_json / snapshot / print, digest of every file, save info], final texts] *)
+    match input, output with
+    | JL [JI ncoll; JI npaths; JL steps], JL [JS _; JL obs; finals] =>
+        finish (judge_saves_case ncoll npaths steps obs finals)
     | _, _ => malformed
     end
   else malformed.
